@@ -284,6 +284,13 @@ def _size_chop(rs: Stream, avg: float, lmin: float) -> Dict[str, Any]:
 
 
 def _multi_chop(rs: Stream, lmin: float) -> List[Dict[str, Any]]:
+    if rs.chance(0.15):
+        # a saw-tooth: the same graded division repeated
+        k = rs.pick([2, 2, 3])
+        sec = {"count": rs.randint(2, 5), "total_expansion": rs.pick([4, 0.25, 2.0, round(rs.uniform(1.5, 3), 3)]), "length_ratio": round(1.0 / k, 6) if k != 3 else 0.333333}
+        if k == 3:
+            return [dict(sec, length_ratio=0.25), dict(sec, length_ratio=0.25), dict(sec, length_ratio=0.25), dict(sec, length_ratio=0.25)]
+        return [dict(sec) for _ in range(k)]
     fr = rs.pick([[0.5, 0.5], [0.3, 0.7], [0.25, 0.5, 0.25], [0.2, 0.3, 0.5]])
     out = []
     for f in fr:
@@ -517,6 +524,10 @@ def make_program(geo: Dict[str, Any], cfg_seed: int, identity: bool = False) -> 
             secs = [invert_chop(s) for s in reversed(secs)]
         for s in secs:
             ops.append({"op": "chop", "target": ch["block"], "axis": axis, "args": dict(s)})
+    for (bname, side, pname) in geo.get("patches", []):
+        ops.append({"op": "patch", "target": bname, "side": hexref.side_after(rots[bname], side), "name": pname})
+    for (m_, s_) in geo.get("merges", []):
+        ops.append({"op": "merge", "master": m_, "slave": s_})
     for nme in order:
         ops.append({"op": "add", "target": nme})
     ops.append({"op": "assemble"})
@@ -527,6 +538,10 @@ def make_program(geo: Dict[str, Any], cfg_seed: int, identity: bool = False) -> 
         for mv in rewrite:
             ops.append({"op": "move_vertex", "index": mv["index"], "d": mv["d"]})
         ops.append({"op": "write", "path": DICT_PATH + ".second"})
+        if rewrite and geo.get("rewrite_back"):
+            # ... and a third time after the vertices were put back exactly where they had been
+            ops.append({"op": "restore_vertices"})
+            ops.append({"op": "write", "path": DICT_PATH + ".third"})
     return {"points": geo["points"], "ops": ops, "meta": dict(geo.get("meta", {}), cfg_seed=cfg_seed)}
 
 
@@ -551,7 +566,24 @@ def ref_assembly(program: Dict[str, Any]) -> Tuple[models.Assembly, List[str]]:
         elif op["op"] == "delete":
             deleted.add(op["target"])
     names = [n for n in added if n not in deleted]
-    blocks = [models.RefBlock(n, hexes[n]["corners"], chops.get(n)) for n in names]
+    slaves = {op["slave"] for op in program["ops"] if op["op"] == "merge"}
+    if not slaves:
+        blocks = [models.RefBlock(n, hexes[n]["corners"], chops.get(n)) for n in names]
+        return models.Assembly(blocks), names
+    # merged pairs: a corner on a slave patch gets its own vertex, so blocks on the two sides of a
+    # merged interface are not connected there
+    side_patch: Dict[str, Dict[str, str]] = {}
+    for op in program["ops"]:
+        if op["op"] == "patch":
+            for sd in (op["side"] if isinstance(op["side"], list) else [op["side"]]):
+                side_patch.setdefault(op["target"], {})[sd] = op["name"]
+    blocks = []
+    for n in names:
+        corners = []
+        for c in range(8):
+            touching = {side_patch.get(n, {}).get(sd) for sd in hexref.SIDES if c in hexref.SIDE_CORNERS[sd]} - {None}
+            corners.append((hexes[n]["corners"][c], tuple(sorted(touching & slaves))))
+        blocks.append(models.RefBlock(n, corners, chops.get(n)))
     return models.Assembly(blocks), names
 
 
@@ -1016,6 +1048,41 @@ def oracle_sizes(program, asm: models.Assembly, names, verdict, res: RunResult, 
                                      f"edge {sorted(key)}: {first[0]}.a{first[1]} sizes {_fmt(first[3])} vs {u[0]}.a{u[1]} {_fmt(u[3])}"))
                 break
         if out:
+            break
+    # a chopped direction is written with its own chops: for sections given by count alone, count +
+    # cell-to-cell expansion or count + total expansion (default preserve) the relative cell sizes
+    # follow from the declaration without any solving
+    for bi, rb in enumerate(asm.blocks):
+        for a in range(3):
+            secs = rb.chops[a]
+            if not secs or any(sc.get("preserve") in ("start_size", "end_size") or sc.get("start_size") is not None
+                               or sc.get("end_size") is not None or sc.get("count") is None for sc in secs):
+                continue
+            spec = []
+            for sc in secs:
+                n = max(int(sc["count"]), 1)
+                if sc.get("total_expansion") is not None:
+                    e = float(sc["total_expansion"])
+                elif sc.get("c2c_expansion") is not None:
+                    e = float(sc["c2c_expansion"]) ** (n - 1)
+                else:
+                    e = 1.0
+                spec.append((float(sc.get("length_ratio", 1.0)), float(n), e))
+            total = sum(int(x[1]) for x in spec)
+            want = models.cell_sizes(1.0, spec, total)
+            if want is None:
+                continue
+            for k, item in enumerate(dec[bi][a]):
+                if item is None or item[3] is None:
+                    continue
+                got = [x / item[2] for x in item[3]]
+                stats["declared_gradings_checked"] = stats.get("declared_gradings_checked", 0) + 1
+                if not models.seq_close(want, got, 1e-6, 1.0):
+                    out.append(Violation("C04", "source-grading-not-as-declared",
+                                         f"{names[bi]}.a{a} edge {k}: chops {secs} give relative cell sizes {_fmt(want)}, the file describes {_fmt(got)}"))
+                    break
+            else:
+                continue
             break
     # preserve: for a family with a single chopped source whose section asks for start/end size
     mob = asm.mobius
